@@ -17,6 +17,7 @@ import (
 	"encoding/json"
 	"errors"
 	"fmt"
+	"net/http"
 	"os"
 	"runtime/debug"
 	"strings"
@@ -25,6 +26,7 @@ import (
 	"time"
 
 	"github.com/superfly/litefs"
+	"github.com/superfly/litefs/consul"
 	"verif/lab"
 	"verif/pager"
 	"verif/prog"
@@ -43,7 +45,18 @@ type Config struct {
 	StoredID  string `json:"stored"`  // "" | X
 	ServiceID string `json:"service"` // "" | X | Y
 	Topology  string `json:"topo"`    // alone | with-primary-M | with-replica-M
+	// Leaser: "" = the in-memory simulated lease service; "consul" = the real consul.Leaser of both nodes
+	// talking to an in-process Consul endpoint (sessions with TTL, KV locks, lock delay).
+	Leaser string `json:"leaser,omitempty"`
 }
+
+// leaseRec is what the monitors need from a lease object handed to the node.
+type leaseRec interface {
+	ID() string
+	NClosed() int
+}
+
+const consulKey = "litefs/primary"
 
 type Case struct {
 	Cfg    Config `json:"cfg"`
@@ -121,8 +134,29 @@ func run1(t *testing.T, c Case) (res Result) {
 		cl := lab.NewCluster(ttl)
 		defer cl.Close()
 		svc := cl.Svc
+		var fake *lab.FakeConsul
+		recLeasers := map[string]*lab.RecLeaser{}
+		if c.Cfg.Leaser == "consul" {
+			fake = lab.NewFakeConsul()
+			cl.Net.Register("consul", fake)
+			consul.VerifHTTPClient = func(hostname string) *http.Client {
+				return &http.Client{Transport: cl.Net.Transport(hostname)}
+			}
+			defer func() { consul.VerifHTTPClient = nil }()
+			fake.Fault = func(from, op string, r *http.Request) string {
+				if rl := recLeasers[from]; rl != nil {
+					return rl.FaultFor(op)
+				}
+				return ""
+			}
+			svc.ClusterIDSource = func() string { return fake.Value(consulKey + "/clusterid") }
+		}
 		if c.Cfg.ServiceID != "" {
-			svc.SetClusterIDValue(map[string]string{"X": idX, "Y": idY}[c.Cfg.ServiceID])
+			id := map[string]string{"X": idX, "Y": idY}[c.Cfg.ServiceID]
+			svc.SetClusterIDValue(id)
+			if fake != nil {
+				fake.SetValue(consulKey+"/clusterid", id)
+			}
 		}
 		// Only the node under test ("N") is scripted.
 		svc.Script = func(node, call string) (lab.Deviation, bool) {
@@ -190,12 +224,32 @@ func run1(t *testing.T, c Case) (res Result) {
 			return lab.Deviation{}, false
 		}
 
-		var leases []*lab.SimLease
-		handedLeases := map[*lab.SimLease]bool{}
+		var leases []leaseRec
+		handedLeases := map[leaseRec]bool{}
+		useConsul := func(cfg *lab.NodeConfig) bool {
+			if fake == nil {
+				return true
+			}
+			rl, err := lab.NewRecLeaser(svc, fake, cfg.Name, consulKey, ttl)
+			if err != nil {
+				res.Harness = "consul leaser: " + err.Error()
+				return false
+			}
+			recLeasers[cfg.Name] = rl
+			cfg.Leaser = rl
+			return true
+		}
 		cl.AddNode("N", c.Cfg.Candidate, func(cfg *lab.NodeConfig) {
 			cfg.ID = 0xAAAA
 			cfg.DemoteDelay = 3 * time.Second
-			cfg.Leaser.(*lab.SimLeaser).OnLease = func(l *lab.SimLease) { leases = append(leases, l) }
+			if !useConsul(cfg) {
+				return
+			}
+			if rl, ok := cfg.Leaser.(*lab.RecLeaser); ok {
+				rl.OnLease = func(l *lab.RecLease) { leases = append(leases, l) }
+			} else {
+				cfg.Leaser.(*lab.SimLeaser).OnLease = func(l *lab.SimLease) { leases = append(leases, l) }
+			}
 		})
 		N := cl.Nodes["N"]
 		if c.Cfg.StoredID != "" {
@@ -204,7 +258,10 @@ func run1(t *testing.T, c Case) (res Result) {
 		}
 		var M *lab.Node
 		if c.Cfg.Topology != "alone" {
-			cl.AddNode("M", c.Cfg.Topology == "with-primary-M", func(cfg *lab.NodeConfig) { cfg.ID = 0xBBBB })
+			cl.AddNode("M", c.Cfg.Topology == "with-primary-M", func(cfg *lab.NodeConfig) { cfg.ID = 0xBBBB; useConsul(cfg) })
+			if res.Harness != "" {
+				return
+			}
 			M = cl.Nodes["M"]
 			if c.Cfg.Topology == "with-primary-M" {
 				// M is primary first, with the service's cluster ID as its own (or generating one).
@@ -247,6 +304,7 @@ func run1(t *testing.T, c Case) (res Result) {
 
 		// ---- monitors ----
 		wasPrimary := false
+		var deadSince time.Time
 		var primaryCtx context.Context
 		handedOff := false
 		handoffTarget := uint64(0)
@@ -256,7 +314,7 @@ func run1(t *testing.T, c Case) (res Result) {
 		totalClosed := func() int {
 			n := 0
 			for _, l := range leases {
-				n += l.Closed
+				n += l.NClosed()
 			}
 			return n
 		}
@@ -271,7 +329,7 @@ func run1(t *testing.T, c Case) (res Result) {
 				switch {
 				case (c.Call == "Acquire" || c.Call == "AcquireExisting" || c.Call == "Renew") && strings.HasPrefix(c.Result, "ok"):
 					at, held, expiredAfter = c.At, true, false
-				case c.Call == "Renew" && (c.Result == "expired" || strings.Contains(c.Result, litefs.ErrLeaseExpired.Error())):
+				case c.Call == "Renew" && (strings.HasPrefix(c.Result, "expired") || strings.Contains(c.Result, litefs.ErrLeaseExpired.Error())):
 					expiredAfter = true
 				case c.Call == "Close":
 					held = false
@@ -321,6 +379,19 @@ func run1(t *testing.T, c Case) (res Result) {
 				}
 				if !c.Cfg.Candidate && !handedToN(svc) {
 					r.viol("C08/non-candidate-primary", "t=%s: a non-candidate node is primary without having been handed a lease", now)
+				}
+				if fake != nil && len(leases) > 0 {
+					// Ground truth from the Consul endpoint, not from what the leaser reported: the node's current session
+					// exists and holds the key. A session that died is tolerated for the two seconds LiteFS's retry tick allows.
+					id := leases[len(leases)-1].ID()
+					holder, _ := fake.Holder(consulKey)
+					if fake.SessionLive(id) && holder == id {
+						deadSince = time.Time{}
+					} else if deadSince.IsZero() {
+						deadSince = time.Now()
+					} else if time.Since(deadSince) >= 2*time.Second {
+						r.viol("C08/primary-without-live-session", "t=%s: IsPrimary() for %s although its Consul session %s is live=%v and the key is held by %q", now, time.Since(deadSince), id, fake.SessionLive(id), holder)
+					}
 				}
 				if !wasPrimary {
 					primaryCtx = N.Store.PrimaryCtx(context.Background())
@@ -414,16 +485,19 @@ func run1(t *testing.T, c Case) (res Result) {
 			current := i == len(leases)-1 && N.Store.IsPrimary()
 			switch {
 			case handedLeases[l] && tookOver(svc, l.ID()):
-				if l.Closed != 0 {
-					r.viol("C08/lease-closed-after-handoff", "lease %s was destroyed %d time(s) by N although it was handed off to M", l.ID(), l.Closed)
+				if l.NClosed() != 0 {
+					r.viol("C08/lease-closed-after-handoff", "lease %s was destroyed %d time(s) by N although it was handed off to M", l.ID(), l.NClosed())
 				}
 			case current:
-				if l.Closed != 0 {
+				if l.NClosed() != 0 {
 					r.viol("C08/lease-closed-while-primary", "lease %s was destroyed while the node is still primary on it", l.ID())
 				}
 			default:
-				if l.Closed != 1 {
-					r.viol("C08/lease-close-count", "lease %s: Lease.Close was called %d times after the node stopped being primary on it, want exactly once", l.ID(), l.Closed)
+				if fake != nil && fake.SessionLive(l.ID()) {
+					r.viol("C08/lease-not-destroyed", "Consul session %s still exists after the node stopped being primary on it (not handed off)", l.ID())
+				}
+				if l.NClosed() != 1 {
+					r.viol("C08/lease-close-count", "lease %s: Lease.Close was called %d times after the node stopped being primary on it, want exactly once", l.ID(), l.NClosed())
 				}
 			}
 		}
@@ -506,10 +580,27 @@ func TestCheck(t *testing.T) {
 					topos = append(topos, "with-replica-M")
 				}
 				for _, topo := range topos {
-					cfgs = append(cfgs, Config{cand, stored, svcID, topo})
+					cfgs = append(cfgs, Config{Candidate: cand, StoredID: stored, ServiceID: svcID, Topology: topo})
 				}
 			}
 		}
+	}
+	// The same configurations again with the real Consul leaser against the in-process Consul endpoint, one deviation less.
+	nSim := len(cfgs)
+	for i := 0; i < nSim; i++ {
+		c := cfgs[i]
+		c.Leaser = "consul"
+		cfgs = append(cfgs, c)
+	}
+	if f := os.Getenv("VERIF_C08_LEASER"); f != "" {
+		// development aid (mutant runs): one lease service only; the evidence then says so
+		var keep []Config
+		for _, c := range cfgs {
+			if (f == "consul") == (c.Leaser == "consul") {
+				keep = append(keep, c)
+			}
+		}
+		cfgs = keep
 	}
 	pool := vlib.NewPool()
 	pool.CaseTimeout = 3 * time.Minute
@@ -525,6 +616,10 @@ func TestCheck(t *testing.T) {
 		frontier := []Case{{Cfg: cfg}}
 		cfgEvals := 0
 		outcomes := map[string]int{}
+		bound := bound
+		if cfg.Leaser == "consul" {
+			bound--
+		}
 		for level := 0; level <= bound && len(frontier) > 0; level++ {
 			var next []Case
 			cur := frontier
@@ -569,7 +664,7 @@ func TestCheck(t *testing.T) {
 						return
 					}
 					outcomes[r.Obs]++
-					distinct[fmt.Sprintf("%v/%s/%s/%s:%s", cfg.Candidate, cfg.StoredID, cfg.ServiceID, cfg.Topology, r.Obs)] = true
+					distinct[fmt.Sprintf("%s%v/%s/%s/%s:%s", cfg.Leaser, cfg.Candidate, cfg.StoredID, cfg.ServiceID, cfg.Topology, r.Obs)] = true
 					if len(r.Points) > maxPoints {
 						maxPoints = len(r.Points)
 					}
@@ -608,15 +703,16 @@ func TestCheck(t *testing.T) {
 		"configurations":               len(cfgs),
 		"max_decision_points":          maxPoints,
 		"per_configuration":            perCfg,
-		"exhaustive":                   unrealised == 0,
+		"exhaustive":                   unrealised == 0 && os.Getenv("VERIF_C08_LEASER") == "",
+		"filtered_to_leaser":           os.Getenv("VERIF_C08_LEASER"),
 		"scripts_not_realised":         unrealised,
 		"scripts_not_realised_samples": unrealisedSamples,
 		"scripts_not_realised_note":    "a script whose recorded call order did not recur in four runs (two nodes reaching the lease service at the same fake instant in another order); each of those runs was still executed and judged, but the script's own subtree is not covered",
 		"samples":                      samples,
-		"rule":                         "every lease-service answer script with at most deviation_bound deviations from the truthful answer (answers per call kind: Acquire 3, AcquireExisting 2, Renew 4 incl. 'errors from now on', PrimaryInfo 4 incl. stale info, ClusterID 3 incl. 'none stored', SetClusterID 2; environment events every 5 fake seconds: none / Demote / Handoff(unknown) / Handoff(M)) over a 40 s horizon (TTL 10 s), per configuration; distinct_nontrivial = distinct (configuration, role timeline) classes",
+		"rule":                         "every lease-service answer script with at most deviation_bound deviations from the truthful answer (answers per call kind: Acquire 3, AcquireExisting 2, Renew 4 incl. 'errors from now on', PrimaryInfo 4 incl. stale info, ClusterID 3 incl. 'none stored', SetClusterID 2; environment events every 5 fake seconds: none / Demote / Handoff(unknown) / Handoff(M)) over a 40 s horizon (TTL 10 s), per configuration and lease service (simulated; Consul leaser with one deviation less); distinct_nontrivial = distinct (configuration, role timeline) classes",
 	}
 	runv.Finish(cov, []string{
-		"The lease service is the in-memory SimLeaser (service-side truth: holder, expiry on the fake clock, cluster ID); the Consul leaser against a fake Consul endpoint is not built.",
+		"Lease services: the in-memory SimLeaser (service-side truth: holder, expiry on the fake clock, cluster ID) at the full deviation bound, and the real consul.Leaser of both nodes against verif's in-process Consul endpoint (sessions with TTL and lock delay, KV locks, behaviour 'delete') at the bound minus one; a deviation is turned into the Consul answer that produces it (500, 404, 'false', session invalidated). The static leaser has no behaviour to script.",
 		"Timeouts are on the testing/synctest fake clock; monitors run every 0.5 fake seconds.",
 	})
 }
